@@ -42,6 +42,9 @@ type Scn struct {
 	// its second refuses, so the first attempt fails half-way and the connection is retried
 	// against the upstream described above
 	Retry bool `json:"retry,omitempty"`
+	// Pre: a route in front of the proxy route matches on the first byte and its non-terminal
+	// handler consumes this many bytes; the proxy then starts at the first unconsumed byte
+	Pre int `json:"pre,omitempty"`
 }
 
 var chunk = layer4.VerifPrefetchChunkSize()
@@ -172,6 +175,12 @@ func execute(x *explore.Exec, sc *Scn) *result {
 			"match":  []map[string]any{{"h_need": map[string]any{"id": "m", "k": sc.Need, "mode": "peek"}}},
 			"handle": []map[string]any{px},
 		}}
+		if sc.Pre > 0 {
+			routes = append([]map[string]any{{
+				"match":  []map[string]any{{"h_need": map[string]any{"id": "pre", "k": 1, "mode": "peek"}}},
+				"handle": []map[string]any{{"handler": "h_consume", "id": "pre", "n": sc.Pre}},
+			}}, routes...)
+		}
 		srv := &layer4.Server{}
 		if err := json.Unmarshal(hm.J(routes), &srv.Routes); err != nil {
 			panic(err)
@@ -259,7 +268,10 @@ func check(x *explore.Exec, sc *Scn, r *result) {
 		return
 	}
 	want := payload('a', sc.C2U)
-	enough := sc.C2U >= sc.Need // otherwise matching never completes: nothing to relay
+	if sc.Pre > 0 {
+		want = want[min(sc.Pre, len(want)):] // consumed by the route in front of the proxy
+	}
+	enough := sc.C2U >= sc.Need+sc.Pre // otherwise matching never completes: nothing to relay
 	graceful := sc.Order == "client-first" || sc.Order == "upstream-first" || sc.Order == "both"
 	diff := func(got, want []byte) string {
 		n := min(len(got), len(want))
@@ -362,6 +374,17 @@ func scenarios(tier string, yield func(any) bool) {
 	sizes := []int{0, 1, 3, chunk + 1}
 	if !bigScenarios(yield) {
 		return
+	}
+	// a route in front of the proxy route consumes the first 2 bytes (of a stream that was
+	// prefetched further): the proxy starts at the first unconsumed byte
+	for _, order := range []string{"client-first", "upstream-first"} {
+		for _, need := range []int{1, 3} {
+			for _, c2u := range []int{5, chunk + 1} {
+				if !yield(&Scn{C2U: c2u, U2C: 1, Peers: 1, Order: order, Half: true, Need: need, Writes: 1, Pre: 2}) {
+					return
+				}
+			}
+		}
 	}
 	// a first attempt that fails half-way, then a retry
 	for _, order := range []string{"client-first", "upstream-first"} {
